@@ -248,7 +248,7 @@ class C18(SolveProperty):
                 toks = props_dyn.gen_history(rng, kind, rng.randint(5, 40))
                 if rng.random() < 0.4:
                     toks = props_dyn.gadget_prefix(rng, kind) + toks
-                out.append("dyn x kind=%s trace=1 hist=%s" % (kind, ";".join(toks)))
+                out.append("dyn x kind=%s trace=1 cap=20000 hist=%s" % (kind, ";".join(toks)))
         return out
 
     def judge_dyn(self, case_line, impl, model):
@@ -260,7 +260,7 @@ class C18(SolveProperty):
                 t = l.split(" ")
                 counts[int(t[1])] = tuple(int(x) for x in t[2].split(","))
         if any("CALLCAP" in l for l in impl):
-            fs.append(Finding("input", case_line, "more than 200000 SAT calls in a history: a query does not terminate within any reasonable bound", "dyn %s · call cap exceeded" % kind))
+            fs.append(Finding("input", case_line, "more than 20000 SAT calls in a history: a query does not terminate within any reasonable bound", "dyn %s · call cap exceeded" % kind))
             return fs
         qi = 0
         calls = 0
